@@ -10,7 +10,7 @@ instruction of the control-flow IR (`Cycle.lean`) touches.  The theorems (C20s) 
 only touches what `setup()` provided — for every level count ≥ 2, mode, cycle type, FMG setting and smoothing counts.
 -/
 namespace Setup
-open Cycle
+open MGCycle
 
 structure Cfg where
   levels : Nat            -- number_of_levels_ (result of chooseNumberOfLevels, see GridGen.lean / C18)
